@@ -978,8 +978,29 @@ fn start_collector() -> Collector {
 
 // ------------------------------------------------------------------------------- one case
 
+/// A `log` logger that turns every record into tracing calls, as the fastrace-aware appenders of logging frameworks
+/// do (`logforth::append::FastraceEvent`): if the library ever logs while it holds one of its own borrows or locks,
+/// the re-entrant call shows up as a panic or a hang.  The unchanged library never logs.
+struct ReentrantLogger;
+static REENTRANT_LOGGER: ReentrantLogger = ReentrantLogger;
+pub static LOG_RECORDS: std::sync::atomic::AtomicUsize = std::sync::atomic::AtomicUsize::new(0);
+impl log::Log for ReentrantLogger {
+    fn enabled(&self, _: &log::Metadata) -> bool {
+        true
+    }
+    fn log(&self, record: &log::Record) {
+        LOG_RECORDS.fetch_add(1, std::sync::atomic::Ordering::Relaxed);
+        LocalSpan::add_event(Event::new(record.level().as_str()).with_properties(|| [("message", record.args().to_string())]));
+        let _l = LocalSpan::enter_with_local_parent("log");
+        let _c = SpanContext::current_local_parent();
+    }
+    fn flush(&self) {}
+}
+
 fn run_case() {
     std::panic::set_hook(Box::new(|_| {}));
+    let _ = log::set_logger(&REENTRANT_LOGGER);
+    log::set_max_level(log::LevelFilter::Trace);
     let stdin = std::io::stdin();
     let stdout = std::io::stdout();
     let mut out = stdout.lock();
